@@ -79,7 +79,7 @@ impl Bv {
     pub fn reserve(&mut self, additional: usize) {
         match self {
             &mut Bv::Fixed(ref b) => {
-                if b.len() + additional > Bvp::capacity() {
+                if additional > Bvp::capacity() - b.len() {
                     let mut new_b = Bvd::from(b);
                     new_b.reserve(additional);
                     *self = Bv::Dynamic(new_b);
